@@ -57,3 +57,23 @@ func zzCalls(name string) int        { panic("spec only") }
 //@ func okParks
 //@ requires ctx != nil
 //@ waits [ctx] ctx
+
+func zzIter() int { panic("spec only") }
+
+//@ func rangeCount
+//@ ensures [bogus] zzCalls("fn:f") == 0
+
+//@ func rangeCountOK
+//@ loop 1 invariant [n] zzCalls("fn:f") == zzIter()
+//@ ensures [all] zzCalls("fn:f") == len(xs)
+
+//@ func firstNeg
+//@ loop 1 invariant [i] 0 <= i && i <= len(xs)
+//@ loop 1 exits [bogus] result > i
+//@ loop 1 exits [ok] result == i && xs[result] < 0
+
+//@ func acc
+//@ requires 0 <= n && n <= 1000
+//@ loop 1 invariant [i] 0 <= i && i <= n
+//@ loop 1 preserves [bogus] s == old(s)+1
+//@ loop 1 preserves [ok] s == old(s)+2 && i == old(i)+1
